@@ -736,7 +736,10 @@ Definition tab_witness : bytes := [109; 32; 9; 61; 49].   (* "m \t=1" *)
 Lemma named_field_refuted :
   exists p, fst (parse_points P_ns 0 tab_witness) = [p] /\ snd (parse_points P_ns 0 tab_witness) = [] /\
             v_fields (view p) = [([], VFloat 4607182418800017408)] /\ wf_view (view p) = false.
-Proof. eexists. vm_compute. repeat split. Qed.
+Proof.
+  exists {| rp_key := [109]; rp_fields := [61; 49]; rp_time := 0 |}.
+  vm_compute. auto.
+Qed.
 
 Lemma errors_name_rejected_lines prec dflt buf :
   map fst (snd (parse_points prec dflt buf))
